@@ -9,7 +9,7 @@ from vt.gen import txg, fag
 PROP = 'C17'
 TITLE = 'parsers: exact construction and rejection of malformed text'
 SHARDS = {'quick': 8, 'thorough': 32}
-TIMEOUT = {'quick': 600, 'thorough': 3000}
+TIMEOUT = {'quick': 420, 'thorough': 3000}
 REQUIRED = ['parse_dfa', 'parse_nfa', 'parse_pda', 'parse_tm', 'fault_rejected', 'class_invariants']
 EXHAUSTIVE_NOTE = 'no complete sub-space: known automata are sampled and each is rendered in several random layouts; every applicable single-fault corruption of the plain layout is tried'
 RULE = ('cases are (known automaton, layout): random DFA/NFA/PDA/TM inside the text-format domain rendered by an own renderer that varies line order, optional states / *_symbols / '
